@@ -14,7 +14,7 @@ PROOF_TARGETS = ["C09/Lemmas.vo", "C09/LemmasSeq.vo"]
 PROPS = ["C09/Props.v"]
 ALLOWED_AXIOMS = []
 IMPL_TIMEOUT = 5.0
-COQ_SHARD = 25   # the printed observation of a shard must stay well below coqc's stack limit (overflow seen at ~34000 characters; worst shard now ~20000)
+COQ_SHARD = 20   # the printed observation of a shard must stay well below coqc's stack limit (overflow seen at ~34000 characters; worst shard now ~14000 quick / ~22000 thorough)
 
 RULE = ("exhaustive over the finite colour space: the 8 names x fg/bg, all 256 int codes as fg and as bg, all 216 "
         "(r,g,b) cube triples (tuple and list, fg and bg), g0..g25 as fg and bg, all 32 effect combinations x 7 "
